@@ -16,13 +16,13 @@ theorem RepGList.length {cfg : Cfg} {n : Nat} {h : List HObj} : {rs : List GoVal
     simp [RepGList.length hr.2]
 
 section
-variable {mc : MCfg} {hook : Hook} {c : ECfg}
+variable {mc : MCfg} {hook : Hook} {c : ECfg} {σ : Type} {I : σ → DState → Prop}
 
 /-! ### tuples -/
 
-theorem pushesG_tupleN (xs : List PyObj) (h1 : 1 ≤ xs.length) (h3 : xs.length ≤ 3) (items : Bytes)
-    (hi : PushesGN mc hook c items xs) :
-    PushesG mc hook c (items ++ [if xs.length = 1 then 0x85 else if xs.length = 2 then 0x86 else 0x87]) (.tuple xs) := by
+theorem pushesG_tupleN (hI : MemoOnly I) (xs : List PyObj) (h1 : 1 ≤ xs.length) (h3 : xs.length ≤ 3) (items : Bytes) {s s' : σ}
+    (hi : PushesGN mc hook c I items xs s s') :
+    PushesG mc hook c I (items ++ [if xs.length = 1 then 0x85 else if xs.length = 2 then 0x86 else 0x87]) (.tuple xs) s s' := by
   have hp : Parses [if xs.length = 1 then (0x85 : UInt8) else if xs.length = 2 then 0x86 else 0x87] [.tupleN xs.length] := by
     have : xs.length = 1 ∨ xs.length = 2 ∨ xs.length = 3 := by omega
     rcases this with h | h | h <;> rw [h]
@@ -30,24 +30,28 @@ theorem pushesG_tupleN (xs : List PyObj) (h1 : 1 ≤ xs.length) (h3 : xs.length 
     · exact parses_op 0x86 (.tupleN 2) rfl parseArg_134
     · exact parses_op 0x87 (.tupleN 3) rfl parseArg_135
   refine RunsP.snoc hi hp ?_
-  intro pos st st' _ _ ⟨rs, hst, hr, hk⟩
+  intro pos st st' _ _ ⟨hj, rs, hst, hr, hk⟩
   have hlen := hr.length
-  refine ⟨{ st' with stack := .tuple rs :: st.stack }, ?_, rfl, .tuple rs, rfl, ?_, hk⟩
+  refine ⟨{ st' with stack := .tuple rs :: st.stack }, ?_, rfl, hI s' st' _ rfl hj, .tuple rs, rfl, ?_, hk⟩
   · have hl' : ¬ st'.stack.length < xs.length := by rw [hst]; simp; omega
     have ht : st'.stack.take xs.length = rs.reverse := by rw [hst, ← hlen]; exact take_reverse_append rs _
     have hd : st'.stack.drop xs.length = st.stack := by rw [hst, ← hlen]; exact drop_reverse_append rs _
     simp only [exec, hl', if_false, ht, hd, List.reverse_reverse, userOKAll_nm rs hr.no_mark, bind, Except.bind, pure, Except.pure]
   · simp only [RepG]; exact ⟨rs, rfl, hr⟩
 
-theorem pushesG_tupleMark (xs : List PyObj) (items : Bytes) (hi : PushesGN mc hook c items xs) :
-    PushesG mc hook c (40 :: items ++ [116]) (.tuple xs) := by
-  have hm : RunsP mc hook c (40 :: items) (fun _ => True) (fun st st' => ∃ rs, st'.stack = rs.reverse ++ .mark :: st.stack ∧
-      RepGList mc.cfg st.heap.length st'.heap rs xs ∧ KeepsH st st') := RunsP.mark_then hi
-  have := RunsP.snoc (Q := fun st st' => ∃ r, st'.stack = r :: st.stack ∧ RepG mc.cfg st.heap.length st'.heap r (.tuple xs) ∧ KeepsH st st')
-    hm (parses_op 116 .tuple rfl parseArg_116) ?_
+/-- MARK, then a fragment that pushes values: the precondition moves across the MARK. -/
+theorem PushesGN.marked (hI : MemoOnly I) {items : Bytes} {xs : List PyObj} {s s' : σ} (hi : PushesGN mc hook c I items xs s s') :
+    RunsP mc hook c (40 :: items) (I s) (fun st st' => I s' st' ∧ ∃ rs, st'.stack = rs.reverse ++ .mark :: st.stack ∧
+      RepGList mc.cfg st.heap.length st'.heap rs xs ∧ KeepsH st st') :=
+  RunsP.weaken (RunsP.mark_then hi) (fun st hj => hI s st (push st .mark) rfl hj) (fun _ _ _ _ q => q)
+
+theorem pushesG_tupleMark (hI : MemoOnly I) (xs : List PyObj) (items : Bytes) {s s' : σ} (hi : PushesGN mc hook c I items xs s s') :
+    PushesG mc hook c I (40 :: items ++ [116]) (.tuple xs) s s' := by
+  have := RunsP.snoc (Q := fun st st' => I s' st' ∧ ∃ r, st'.stack = r :: st.stack ∧ RepG mc.cfg st.heap.length st'.heap r (.tuple xs) ∧ KeepsH st st')
+    (PushesGN.marked hI hi) (parses_op 116 .tuple rfl parseArg_116) ?_
   · unfold PushesG; simpa using this
-  · intro pos st st' _ _ ⟨rs, hst, hr, hk⟩
-    refine ⟨{ st' with stack := .tuple rs :: st.stack }, ?_, rfl, .tuple rs, rfl, ?_, hk⟩
+  · intro pos st st' _ _ ⟨hj, rs, hst, hr, hk⟩
+    refine ⟨{ st' with stack := .tuple rs :: st.stack }, ?_, rfl, hI s' st' _ rfl hj, .tuple rs, rfl, ?_, hk⟩
     · have hsp : splitAtMark st'.stack = some (rs.reverse, st.stack) := by
         rw [hst]
         exact splitAtMark_append rs.reverse st.stack (fun r hr' => hr.no_mark r (by simpa using hr'))
@@ -185,17 +189,7 @@ theorem repGPairs_of_flat {cfg : Cfg} {n : Nat} {h : List HObj} : (kvs : List (P
     exact ⟨(rk, rv) :: es, rfl, by simp only [RepGPairs]; exact ⟨hr.1, hr.2.1, hp⟩⟩
 
 section
-variable {mc : MCfg} {hook : Hook} {c : ECfg}
-
-theorem FragsGN.append_inv : {f1 f2 : List Bytes} → {x1 x2 : List (List PyObj)} → f1.length = x1.length →
-    FragsGN mc hook c (f1 ++ f2) (x1 ++ x2) → FragsGN mc hook c f1 x1 ∧ FragsGN mc hook c f2 x2
-  | [], _, [], _, _, h => ⟨by simp [FragsGN], by simpa using h⟩
-  | [], _, _ :: _, _, hl, _ => by simp at hl
-  | _ :: _, _, [], _, hl, _ => by simp at hl
-  | f :: f1, f2, x :: x1, x2, hl, h => by
-    simp only [List.cons_append, FragsGN] at h
-    obtain ⟨a, b⟩ := FragsGN.append_inv (by simpa using hl) h.2
-    exact ⟨by simp only [FragsGN]; exact ⟨h.1, a⟩, b⟩
+variable {mc : MCfg} {hook : Hook} {c : ECfg} {σ : Type} {I : σ → DState → Prop}
 
 /-! #### lists -/
 
@@ -206,15 +200,16 @@ def ListQ (cfg : Cfg) (xs : List PyObj) (st st' : DState) : Prop :=
   ∀ acc s0, st.stack = .list acc :: s0 → ∃ rs, st'.stack = .list (acc ++ rs) :: s0 ∧
     RepGList cfg st.heap.length st'.heap rs xs ∧ KeepsH st st'
 
-theorem runs_listGroup (g : Grp PyObj)
-    (hf : FragsGN mc hook c (g.items.map (·.1)) (g.items.map fun x => [x.2])) :
-    RunsP mc hook c (encGrp 97 101 g) ListTop (ListQ mc.cfg (g.items.map (·.2))) := by
+theorem runs_listGroup (hI : MemoOnly I) (g : Grp PyObj) {s s' : σ}
+    (hf : FragsGN mc hook c I (g.items.map (·.1)) (g.items.map fun x => [x.2]) s s') :
+    RunsP mc hook c (encGrp 97 101 g) (fun st => I s st ∧ ListTop st) (fun st st' => I s' st' ∧ ListQ mc.cfg (g.items.map (·.2)) st st') := by
   cases g with
   | single x =>
     simp only [Grp.items, List.map_cons, List.map_nil, FragsGN] at hf
+    obtain ⟨s1, hf1, rfl⟩ := hf
     simp only [encGrp, Grp.items, List.map_cons, List.map_nil]
-    refine RunsP.snoc (RunsP.weaken hf.1 (fun _ _ => trivial) (fun _ _ _ _ q => q)) (parses_op 97 .append rfl parseArg_97) ?_
-    intro pos st st' ⟨acc, s0, hs⟩ _ ⟨rs, hst, hr, hk⟩
+    refine RunsP.snoc (RunsP.weaken hf1 (fun _ h => h.1) (fun _ _ _ _ q => q)) (parses_op 97 .append rfl parseArg_97) ?_
+    intro pos st st' ⟨_, acc, s0, hs⟩ _ ⟨hj, rs, hst, hr, hk⟩
     obtain ⟨r, rfl⟩ : ∃ r, rs = [r] := by
       match rs, hr with
       | [r], _ => exact ⟨r, rfl⟩
@@ -222,7 +217,7 @@ theorem runs_listGroup (g : Grp PyObj)
       | _ :: _ :: _, h => simp [RepGList] at h
     have hm : isMark r = false := hr.no_mark r (by simp)
     have hst' : st'.stack = r :: .list acc :: s0 := by rw [hst, hs]; rfl
-    refine ⟨{ st' with stack := .list (acc ++ [r]) :: s0 }, ?_, rfl, ?_⟩
+    refine ⟨{ st' with stack := .list (acc ++ [r]) :: s0 }, ?_, rfl, hI _ st' _ rfl hj, ?_⟩
     · simp only [exec, xpop, hst', bind, Except.bind, userOK_nm hm, listAppend, pure, Except.pure]
       simp
     · intro acc' s0' hs'
@@ -235,13 +230,11 @@ theorem runs_listGroup (g : Grp PyObj)
     simp only [Grp.items] at hf ⊢
     have hfl := FragsGN.flatten hf
     rw [flatten_map_singleton] at hfl
-    have hm : RunsP mc hook c (40 :: (xs.map (·.1)).flatten) (fun _ => True) (fun st st' => ∃ rs, st'.stack = rs.reverse ++ .mark :: st.stack ∧
-        RepGList mc.cfg st.heap.length st'.heap rs (xs.map (·.2)) ∧ KeepsH st st') := RunsP.mark_then hfl
     show RunsP mc hook c ((40 :: (xs.map (·.1)).flatten) ++ [101]) _ _
-    refine RunsP.snoc (RunsP.weaken hm (fun _ _ => trivial) (fun _ _ _ _ q => q)) (parses_op 101 .appends rfl parseArg_101) ?_
-    intro pos st st' ⟨acc, s0, hs⟩ _ ⟨rs, hst, hr, hk⟩
+    refine RunsP.snoc (RunsP.weaken (PushesGN.marked hI hfl) (fun _ h => h.1) (fun _ _ _ _ q => q)) (parses_op 101 .appends rfl parseArg_101) ?_
+    intro pos st st' ⟨_, acc, s0, hs⟩ _ ⟨hj, rs, hst, hr, hk⟩
     have hst' : st'.stack = rs.reverse ++ .mark :: .list acc :: s0 := by rw [hst, hs]
-    refine ⟨{ st' with stack := .list (acc ++ rs) :: s0 }, ?_, rfl, ?_⟩
+    refine ⟨{ st' with stack := .list (acc ++ rs) :: s0 }, ?_, rfl, hI _ st' _ rfl hj, ?_⟩
     · have hsp : splitAtMark st'.stack = some (rs.reverse, .list acc :: s0) := by
         rw [hst']
         exact splitAtMark_append rs.reverse _ (fun r hr' => hr.no_mark r (by simpa using hr'))
@@ -253,23 +246,30 @@ theorem runs_listGroup (g : Grp PyObj)
       subst h1; subst h2
       exact ⟨rs, rfl, hr, hk⟩
 
-theorem runs_listGroups : (gs : List (Grp PyObj)) →
-    FragsGN mc hook c ((grpItems gs).map (·.1)) ((grpItems gs).map fun x => [x.2]) →
-    RunsP mc hook c (encGrps 97 101 gs) ListTop (ListQ mc.cfg ((grpItems gs).map (·.2)))
-  | [], _ => by
+theorem runs_listGroups (hI : MemoOnly I) : (gs : List (Grp PyObj)) → {s s' : σ} →
+    FragsGN mc hook c I ((grpItems gs).map (·.1)) ((grpItems gs).map fun x => [x.2]) s s' →
+    RunsP mc hook c (encGrps 97 101 gs) (fun st => I s st ∧ ListTop st)
+      (fun st st' => I s' st' ∧ ListQ mc.cfg ((grpItems gs).map (·.2)) st st')
+  | [], s, _, hf => by
+    simp only [grpItems_nil, List.map_nil, FragsGN] at hf
+    subst hf
     refine RunsP.weaken RunsP.nil (fun _ h => h) ?_
-    intro st st' _ _ e acc s0 hs
+    intro st st' hp _ e
     subst e
+    refine ⟨hp.1, ?_⟩
+    intro acc s0 hs
     exact ⟨[], by simpa using hs, by simp [RepGList], KeepsH.refl _⟩
-  | g :: gs, hf => by
+  | g :: gs, s, s', hf => by
     simp only [grpItems_cons, List.map_append] at hf ⊢
-    obtain ⟨h1, h2⟩ := FragsGN.append_inv (by simp) hf
+    obtain ⟨sm, h1, h2⟩ := FragsGN.append_inv (by simp) hf
     rw [encGrps_cons]
-    refine RunsP.weaken (RunsP.seq (runs_listGroup g h1) (runs_listGroups gs h2) ?_) (fun _ h => h) ?_
-    · intro st st1 ⟨acc, s0, hs⟩ _ q
+    refine RunsP.weaken (RunsP.seq (runs_listGroup hI g h1) (runs_listGroups hI gs h2) ?_) (fun _ h => h) ?_
+    · intro st st1 ⟨_, acc, s0, hs⟩ _ ⟨hj, q⟩
       obtain ⟨rs, hs1, _⟩ := q acc s0 hs
-      exact ⟨_, _, hs1⟩
-    · intro st st2 _ _ ⟨st1, _, q1, q2⟩ acc s0 hs
+      exact ⟨hj, _, _, hs1⟩
+    · intro st st2 _ _ ⟨st1, _, ⟨_, q1⟩, hj2, q2⟩
+      refine ⟨hj2, ?_⟩
+      intro acc s0 hs
       obtain ⟨rs1, hs1, hr1, hk1⟩ := q1 acc s0 hs
       obtain ⟨rs2, hs2, hr2, hk2⟩ := q2 (acc ++ rs1) s0 hs1
       refine ⟨rs1 ++ rs2, by rw [hs2, List.append_assoc], RepGList.append ?_ ?_, hk1.trans hk2⟩
